@@ -19,7 +19,7 @@ from pathlib import Path
 VERIF = Path(__file__).resolve().parent.parent
 REPO = Path(os.environ.get("VERIF_REPO", "/repo"))
 SPECS = VERIF / "specs"
-EVIDENCE = VERIF / "evidence"
+EVIDENCE = Path(os.environ.get("VERIF_EVIDENCE") or (VERIF / "evidence"))
 PY = "/venv/bin/python"
 TLA_JAR = "/opt/veriftools/tla/tla2tools.jar"
 GUARD = "ARIADNE_CODEGEN_VERIF"
@@ -92,8 +92,9 @@ class TlcResult:
                    and not self.deadlock and "Error:" not in out)
         # per-action coverage lines: <Action line .. of module M>: distinct:generated
         self.coverage = {}
-        for mm in re.finditer(r"<(\w+) line \d+, col \d+ to line \d+, col \d+ of module (\w+)>: (\d+):(\d+)", out):
-            self.coverage[f"{mm.group(2)}!{mm.group(1)}"] = (int(mm.group(3)), int(mm.group(4)))
+        for mm in re.finditer(r"<(\w+) line \d+, col \d+ to line \d+, col \d+ of module (\w+)(?: \((\d+) [\d ]+\))?>: (\d+):(\d+)", out):
+            key = f"{mm.group(2)}!{mm.group(1)}" + (f"@{mm.group(3)}" if mm.group(3) else "")
+            self.coverage[key] = (int(mm.group(4)), int(mm.group(5)))
 
     def printed(self):
         """Values printed with PrintT, one per line, returned raw."""
